@@ -368,27 +368,41 @@ static int between_mask(int i)
 	return m;
 }
 
-static int domain;      /* 0 consistent known, 1 all unknown, 2 conflicting (known + unknown/zero), 3 xds, 4 exhaustive */
-static const char *const dom_name[] = { "known", "unknown", "conflicting", "xds", "exh" };
+/* 0 every carrier names the same station of the table, 1 every carrier has a CNI that is not in the
+ * table, 2 some carriers name the station, the others send no CNI (zero: "unknown or not applicable"),
+ * 3 the carriers disagree (one names a station of the table, another has a CNI that is not in the table),
+ * 4 xds, 5 exhaustive */
+enum { D_KNOWN, D_UNKNOWN, D_PARTIAL, D_DISAGREE, D_XDS, D_EXH };
+static int domain;
+static const char *const dom_name[] = { "known", "unknown", "known+zero", "disagree", "xds", "exh" };
 
-/* Violations of the debounce rules seen while the carriers contradict each other (one names a
- * station of the table, another carries an unknown or zero CNI) have one root cause and get their
- * own keys. */
+/* Violations seen while one carrier sends a zero CNI next to carriers naming a station, or while the
+ * carriers disagree, get their own keys (different code paths, different root causes). */
 static const char *dkey(const char *key)
 {
 	static char b[4][160];
 	static int k;
 	char *s = b[k++ & 3];
-	snprintf(s, 160, "%s%s", key, domain == 2 ? ":conflicting-carriers" : "");
+	snprintf(s, 160, "%s%s", key, domain == D_PARTIAL ? ":zero-cni-carrier" : domain == D_DISAGREE ? ":carriers-disagree" : "");
 	return s;
 }
 
-static int blank_between(int p, int i)
+/* a reception that tells the decoder something new: the first or second of a run of identical values
+ * on its carrier (the second is the one that confirms the value) */
+static int prev_on_carrier(int i);
+static int same_value(const struct rx *a, const struct rx *b);
+static int input_change(int i)
 {
-	int e;
-	for (e = 0; e < n_ev; e++)
-		if ((evs[e].type == VBI_EVENT_NETWORK || evs[e].type == VBI_EVENT_NETWORK_ID) && evs[e].rx >= p && evs[e].rx < i && evs[e].blank) return 1;
-	return 0;
+	int p = prev_on_carrier(i), pp;
+	if (p < 0 || !same_value(&rxs[p], &rxs[i])) return 1;
+	pp = prev_on_carrier(p);
+	return pp < 0 || !same_value(&rxs[pp], &rxs[p]);
+}
+
+static int same_announcement(const vbi_network *a, const vbi_network *b)
+{
+	return a->nuid == b->nuid && a->cni_vps == b->cni_vps && a->cni_8301 == b->cni_8301 && a->cni_8302 == b->cni_8302
+		&& !strcmp((const char *)a->name, (const char *)b->name) && !strcmp((const char *)a->call, (const char *)b->call);
 }
 
 static void rules_R1_R2_R3(void)
